@@ -16,6 +16,36 @@ MSG = {
 }
 
 
+# ----------------------------------------------------------------- source fingerprints (informational, DESIGN 4.4)
+ANCHORED = ["_check_structural_constraint", "_check_linking_constraint", "add_mlcl_constraint"]
+# normalised-AST hashes of the sources the hand model was written against
+MODELLED = {
+    "_check_structural_constraint": {"1a4beb3836": "snapshot: BFS positions compared with sample indices (= acceptsCurrent)",
+                                     "51b7ce8986": "with `i, j = unique_indices[i], unique_indices[j]` (= acceptsFixed)"},
+    "_check_linking_constraint": {"a5f68e9f26": "snapshot"},
+    "add_mlcl_constraint": {"ac17cac5ac": "snapshot"},
+    "decorate_batch": {"1547a9ff17": "snapshot"}, "disguise_batch": {"401ea13dec": "snapshot"},
+    "decorate_grads": {"6d34796ec7": "snapshot"}, "intercept_grads": {"2e5b6875ba": "snapshot"},
+}
+
+
+def source_fingerprints():
+    """sha1 of ast.dump (comments / layout dropped) of the anchored functions of the mlcl.py under test"""
+    import ast
+    import hashlib
+    import os
+    path = os.path.join(core.REPO, "gemclus", "mlcl.py")
+    tree = ast.parse(open(path).read())
+    out = {}
+    for node in ast.walk(tree):
+        if isinstance(node, ast.FunctionDef) and node.name in ANCHORED + ["decorate_batch", "disguise_batch", "decorate_grads", "intercept_grads"]:
+            if isinstance(node.body[0], ast.Expr) and isinstance(getattr(node.body[0], "value", None), ast.Constant) \
+                    and isinstance(node.body[0].value.value, str):
+                node.body = node.body[1:]   # docstring
+            out[node.name] = hashlib.sha1(ast.dump(node).encode()).hexdigest()[:10]
+    return out
+
+
 # ----------------------------------------------------------------- the real acceptor, with a spy on scipy's BFS
 class _CsgraphSpy:
     """stands in for the `csgraph` module object inside gemclus.mlcl; records every BFS call"""
